@@ -21,4 +21,5 @@ int64_t vhx_tar_atol10(const char *p, size_t n);
 int64_t vhx_tar_atol256(const char *p, size_t n);
 int64_t vhx_cpio_atol8(const char *p, unsigned n);
 int64_t vhx_cpio_atol16(const char *p, unsigned n);
+size_t vhx_pax_record(const char *key, const char *value, size_t value_len, char *out, size_t cap);
 #endif
